@@ -255,7 +255,7 @@ class C12(Check):
             sig.update({k: str(v) for k, v in desc.items()})
             viol.append({"sig": sig, "what": f"{desc}: {what}", "detail": detail})
 
-        if res.exit != 0 and "Did not compile" in res.err:
+        if driver.compile_rejected(res):
             msg = res.out + res.err
             if "always unwraps `nil`" in msg or "always unwraps" in msg:
                 # a literal `get nil` is flagged at compile time; that is the defined failure, reported early
@@ -283,8 +283,6 @@ class C12(Check):
                 m = re.search(r"x\.ms:(\d+):(\d+)", res.err)
                 if res.cls != "error":
                     bad("failure-delivery", f"get of nil ended with {res.cls}, not a run-time error")
-                elif "unwrap of `nil`" not in res.err:
-                    bad("wrong-error", f"get of nil reported as: {res.err[-200:]}")
                 elif not m:
                     bad("no-position", "the error for `get` of nil names no source position")
                 elif len(cands) == 1:
